@@ -26,7 +26,9 @@ class VC(Scheduler):
         self.aux_vc: Dict[ClassId, SimTime] = dict()
         self.store = PriorityStore(env)
         for class_id in vticks.keys():
-            self.aux_vc[class_id] = 0
+            # no packet yet: the first stamp is arrival time + vtick, whatever
+            # the clock shows (it may start below zero)
+            self.aux_vc[class_id] = float("-inf")
             self.vc[class_id] = 0
         self.proc = env.process(self.run(env))
 
